@@ -1,20 +1,30 @@
 #!/bin/bash
-# ./engines/benign.sh [name...] : applies each behaviour-preserving edit of /verif/benign to a scratch worktree and runs all 20 checks;
-# every one of them must stay silent.  Development / regression aid.
+# ./engines/benign.sh [name...] : applies each behaviour-preserving edit of /verif/benign (own edit scripts b*/r*.py and the
+# refactors written by independent sub-agents, benign/agent/*.diff) to a scratch worktree and runs all 20 checks; every one of
+# them must stay silent, except the refactors listed in benign/agent/KNOWN_LIMITS.txt (documented fail-closed limitations,
+# DESIGN.md section 13).  Development / regression aid.
 HERE="$(cd "$(dirname "$0")" && pwd)"; cd "$HERE/.."
 WT=${CB_SCRATCH:-/tmp/cbwt}
 if [ ! -e "$WT/.git" ]; then git -C /repo worktree add --detach "$WT" HEAD >/dev/null 2>&1; fi
-names="$*"; [ -z "$names" ] && names=$(ls benign/*.py | xargs -n1 basename | sed 's/\.py$//')
+names="$*"; [ -z "$names" ] && names="$(ls benign/*.py | xargs -n1 basename | sed 's/\.py$//') $(ls benign/agent/*.diff | xargs -n1 basename | sed 's/\.diff$//;s/^/agent\//')"
 bad=0
+CUR=$(mktemp /tmp/benign-cur.XXXXXX)
 for n in $names; do
-  git -C "$WT" checkout -q --detach "$(git -C /repo rev-parse HEAD)" 2>/dev/null; git -C "$WT" checkout -q -- .
-  python3 "benign/$n.py" "$WT" || { echo "$n: edit script failed"; bad=1; continue; }
-  ( cd "$WT" && cargo build --offline -q 2>&1 | grep -E "^error" | head -3 )
-  git -C "$WT" diff > /tmp/benign-cur.diff
-  git -C "$WT" checkout -q -- .
-  out=$(engines/seedchecks.sh /tmp/benign-cur.diff 2>&1)
+  case "$n" in
+    agent/*)
+      cp "benign/$n.diff" "$CUR" ;;
+    *)
+      git -C "$WT" checkout -q --detach "$(git -C /repo rev-parse HEAD)" 2>/dev/null; git -C "$WT" checkout -q -- .
+      python3 "benign/$n.py" "$WT" || { echo "$n: edit script failed"; bad=1; continue; }
+      ( cd "$WT" && cargo build --offline -q 2>&1 | grep -E "^error" | head -3 )
+      git -C "$WT" diff > "$CUR"
+      git -C "$WT" checkout -q -- . ;;
+  esac
+  out=$(engines/seedchecks.sh "$CUR" 2>&1)
   fired=$(echo "$out" | grep '^FIRED:' | sed 's/FIRED: *//')
-  if [ -z "$fired" ]; then echo "$n: silent (ok)"; else echo "$n: FALSE ALARM in [$fired]"; echo "$out" | grep -E "^FAIL" | cut -c1-260 | head -6; bad=1; fi
+  if [ -z "$fired" ]; then echo "$n: silent (ok)"
+  elif grep -q "^$(basename $n) " benign/agent/KNOWN_LIMITS.txt 2>/dev/null; then echo "$n: alarms in [$fired] (documented limitation)"
+  else echo "$n: FALSE ALARM in [$fired]"; echo "$out" | grep -E "^FAIL" | cut -c1-260 | head -6; bad=1; fi
 done
-rm -f /tmp/benign-cur.diff
+rm -f "$CUR"
 exit $bad
